@@ -155,6 +155,8 @@ pub enum Step {
     Insert { slot: usize, k: K },
     Remove { slot: usize, k: K },
     Mutate { slot: usize, k: K },
+    /// mutate component `k` of every entity that carries it (one tick then carries many entities' mutations)
+    MutateAll { k: K },
     /// mutate the payload component `C` in place to a given padding length
     Resize { slot: usize, len: u16 },
     SetRef { slot: usize, target: usize },
